@@ -274,6 +274,8 @@ func main() {
 		emit(map[string]any{"ev": "done"})
 	case "rawload":
 		rawload(readCase())
+	case "conc":
+		conc(readCase())
 	case "history":
 		history(readCase())
 	case "tsync":
